@@ -10,8 +10,10 @@ import traceback
 import warnings
 
 VERIF = os.path.dirname(os.path.dirname(os.path.abspath(__file__)))
-EVIDENCE_DIR = os.path.join(VERIF, "evidence")
-REPLAY_DIR = os.path.join(VERIF, "replays")
+# HGMC_OUT redirects evidence and replay files (development runs next to a registered run); default: /verif
+_OUT = os.environ.get("HGMC_OUT", VERIF)
+EVIDENCE_DIR = os.path.join(_OUT, "evidence")
+REPLAY_DIR = os.path.join(_OUT, "replays")
 KNOWN = os.path.join(VERIF, "known_findings.json")
 NWORKERS = int(os.environ.get("HGMC_WORKERS", "16"))
 
